@@ -44,7 +44,7 @@ DTYPE_BITS = {"int8": 8, "int16": 16, "int32": 32, "int64": 64, "uint8": 8, "uin
 
 def lean_ty(t: str) -> str:
     return {
-        "Int": "Int", "Val": "Val", "Bool": "Bool", "P": "Val × Int",
+        "Int": "Int", "Val": "Val", "Bool": "Bool", "P": "Val × Int", "F": "FVal", "A(F)": "Int → FVal",
         "A(Int)": "Int → Int", "A(Val)": "Int → Val", "A(Bool)": "Int → Bool",
         "A2(Int)": "Int → Int → Int", "A2(Val)": "Int → Int → Val",
         "L(Int)": "List Int", "L(Val)": "List Val", "LL(Val)": "List (List Val)", "LL(Int)": "List (List Int)",
@@ -91,9 +91,12 @@ class Escape(Exception):
 
 
 class LoopTranslator:
-    def __init__(self, fname: str, params: dict[str, str], kind_param: bool = True):
+    def __init__(self, fname: str, params: dict[str, str], float_ty: str = "Val", consts: Optional[dict] = None):
         self.fname = fname
         self.params = params
+        self.float_ty = float_ty
+        self.consts = consts or {}
+        self.extra_params = {}
 
     # ---------------------------------------------------------------- expressions
     def coerce(self, s: str, t: str, want: str) -> str:
@@ -103,6 +106,8 @@ class LoopTranslator:
             return f"(Val.ofInt {s})"
         if t == "Bool" and want == "Int":
             return f"(if {s} then (1 : Int) else 0)"
+        if t == "Int" and want == "F":
+            return f"(FVal.ofInt {s})"
         raise TranslateError(f"{self.fname}: cannot coerce {t} to {want}: {s}")
 
     def idx(self, cx: Ctx, v: Var, k: int, e: ast.AST) -> str:
@@ -114,6 +119,8 @@ class LoopTranslator:
     def expr(self, cx: Ctx, e: ast.AST):
         if isinstance(e, ast.Name):
             if e.id not in cx.env:
+                if e.id in self.consts:
+                    return f"({self.consts[e.id]} : Int)", "Int"
                 raise TranslateError(f"{self.fname}: unknown name {e.id}")
             v = cx.env[e.id]
             return v.lean, v.ty
@@ -124,12 +131,16 @@ class LoopTranslator:
                 return f"({e.value} : Int)", "Int"
             raise TranslateError(f"{self.fname}: unsupported constant {e.value!r}")
         if isinstance(e, ast.Attribute) and isinstance(e.value, ast.Name) and e.value.id == "np" and e.attr == "nan":
-            return "Val.nan", "Val"
+            return ("FVal.nan", "F") if self.float_ty == "F" else ("Val.nan", "Val")
+        if isinstance(e, ast.Constant) and isinstance(e.value, float) and self.float_ty == "F" and e.value == int(e.value):
+            return f"(FVal.ofInt ({int(e.value)} : Int))", "F"
         if isinstance(e, ast.UnaryOp):
             if isinstance(e.op, ast.Not):
                 return f"(!{self.cond(cx, e.operand)})", "Bool"
             if isinstance(e.op, ast.USub):
                 s, t = self.expr(cx, e.operand)
+                if t == "F":
+                    return f"(FVal.neg {s})", "F"
                 if t != "Int":
                     raise TranslateError(f"{self.fname}: unary minus on {t}")
                 return f"(-{s})", "Int"
@@ -145,6 +156,12 @@ class LoopTranslator:
                     return f"(Int.fmod {ls} {rs})", "Int"
                 if op is ast.FloorDiv:
                     return f"(Int.fdiv {ls} {rs})", "Int"
+            if self.float_ty == "F" and lt == "Int" and rt == "Int" and op is ast.Div:
+                return f"(FVal.divII {ls} {rs})", "F"
+            if "F" in (lt, rt) and {lt, rt} <= {"Int", "F"}:
+                fn = {ast.Add: "FVal.add", ast.Sub: "FVal.sub", ast.Mult: "FVal.mul", ast.Div: "FVal.div"}.get(op)
+                if fn:
+                    return f"({fn} {self.coerce(ls, lt, 'F')} {self.coerce(rs, rt, 'F')})", "F"
             if {lt, rt} <= {"Int", "Val"}:
                 fn = {ast.Add: "Val.add", ast.Sub: "Val.sub"}.get(op)
                 if fn:
@@ -218,6 +235,27 @@ class LoopTranslator:
             if isinstance(f, ast.Name) and f.id == "is_null" and len(e.args) == 1 and not e.keywords:
                 s, t = self.expr(cx, e.args[0])
                 return f"(isNull k {self.coerce(s, t, 'Val')})", "Bool"
+            if isinstance(f, ast.Attribute) and isinstance(f.value, ast.Name) and f.value.id == "np" and not e.keywords \
+                    and len(e.args) == 1:
+                if f.attr == "isnan":
+                    a, at = self.expr(cx, e.args[0])
+                    if at == "F":
+                        return f"(FVal.isNan {a})", "Bool"
+                    if at == "Val":
+                        return f"(Val.isNan {a})", "Bool"
+                if f.attr == "exp":
+                    a, at = self.expr(cx, e.args[0])
+                    if at == "F":
+                        self.extra_params["expf"] = "FVal → FVal"
+                        return f"(expf {a})", "F"
+                if f.attr == "log" and isinstance(e.args[0], ast.Constant) and e.args[0].value == 2:
+                    self.extra_params["ln2"] = "FVal"
+                    return "ln2", "F"
+            if isinstance(f, ast.Name) and f.id == "_min" and len(e.args) == 2:
+                a, at = self.expr(cx, e.args[0])
+                b, bt = self.expr(cx, e.args[1])
+                if at == "Int" and bt == "Int":
+                    return f"(min {a} {b})", "Int"
             if isinstance(f, ast.Name) and f.id == "len" and len(e.args) == 1 and isinstance(e.args[0], ast.Name):
                 v = cx.env.get(e.args[0].id)
                 if v is None or not v.lens:
@@ -259,13 +297,26 @@ class LoopTranslator:
                 if name in ("bool", "bool_"):
                     return ("Bool", None)
                 if name in ("float", "float64"):
-                    return ("Val", None)
+                    return (self.float_ty, None)
                 raise TranslateError(f"{self.fname}: dtype {ast.unparse(v)} not understood")
         return None
 
     def alloc(self, cx: Ctx, target: str, call: ast.Call) -> bool:
         """np.zeros / np.full / np.empty -> constant function; returns False if `call` is not an allocation"""
         f = call.func
+        if isinstance(f, ast.Attribute) and isinstance(f.value, ast.Name) and f.value.id == "np" and f.attr == "zeros_like" \
+                and len(call.args) == 1 and isinstance(call.args[0], ast.Name) and call.args[0].id in cx.env \
+                and cx.env[call.args[0].id].ty.startswith("A("):
+            src = cx.env[call.args[0].id]
+            dt = self.dtype_kw(call)
+            ety, width = dt if dt is not None else (src.ty[2:-1], src.width)
+            fill_s = {"Int": "(0 : Int)", "Val": "(Val.num 0)", "Bool": "false", "F": "(FVal.ofInt 0)"}[ety]
+            ln = cx.fresh(target + "_len")
+            cx.lets.append(f"let {ln} : Int := {src.lens[0]}")
+            nm = cx.fresh(target)
+            cx.lets.append(f"let {nm} : Int → {lean_ty(ety)} := fun _ => {fill_s}")
+            cx.env[target] = Var(nm, f"A({ety})", (ln,), width)
+            return True
         if not (isinstance(f, ast.Attribute) and isinstance(f.value, ast.Name) and f.value.id == "np"
                 and f.attr in ("zeros", "full", "empty")):
             return False
@@ -280,12 +331,14 @@ class LoopTranslator:
                 ety, width = "Int", (True, 64)
             elif f.attr == "full" and fill_t == "Bool":
                 ety, width = "Bool", None
+            elif f.attr == "full" and fill_t == "F":
+                ety, width = "F", None
             else:
-                ety, width = "Val", None
+                ety, width = self.float_ty, None
         else:
             ety, width = dt
         if fill_s is None:
-            fill_s = {"Int": "(0 : Int)", "Val": "(Val.num 0)", "Bool": "false"}[ety]
+            fill_s = {"Int": "(0 : Int)", "Val": "(Val.num 0)", "Bool": "false", "F": "(FVal.ofInt 0)"}[ety]
         else:
             fill_s = self.coerce(fill_s, fill_t, ety)
         dims = shape.elts if isinstance(shape, ast.Tuple) else [shape]
@@ -299,10 +352,10 @@ class LoopTranslator:
             lens.append(ln)
         nm = cx.fresh(target)
         if len(dims) == 1:
-            cx.lets.append(f"let {nm} : Int → {ety} := fun _ => {fill_s}")
+            cx.lets.append(f"let {nm} : Int → {lean_ty(ety)} := fun _ => {fill_s}")
             cx.env[target] = Var(nm, f"A({ety})", tuple(lens), width)
         elif len(dims) == 2:
-            cx.lets.append(f"let {nm} : Int → Int → {ety} := fun _ _ => {fill_s}")
+            cx.lets.append(f"let {nm} : Int → Int → {lean_ty(ety)} := fun _ _ => {fill_s}")
             cx.env[target] = Var(nm, f"A2({ety})", tuple(lens), width)
         else:
             raise TranslateError(f"{self.fname}: more than two dimensions")
@@ -653,6 +706,7 @@ class LoopTranslator:
     def for_stmt(self, cx: Ctx, s: ast.For, outer_loop):
         if s.orelse:
             raise TranslateError(f"{self.fname}: for-else")
+        s = self.desugar_enumerate(cx, s)
         it = self.iterable(cx, s.iter)
         if it is None:
             raise TranslateError(f"{self.fname}: unsupported iterable {ast.unparse(s.iter)}")
@@ -774,6 +828,37 @@ class LoopTranslator:
             # a return inside the loop: the function's value is the recorded one if the loop stopped early
             self.pending_ret = (res, ret_ty)
 
+    def desugar_enumerate(self, cx: Ctx, s: ast.For) -> ast.For:
+        """for i, x in enumerate(a)            ->  for i in range(len(a)): x = a[i]
+           for i, (k, x) in enumerate(zip(a, b)) ->  for i in range(min(len(a), len(b))): k = a[i]; x = b[i]"""
+        it = s.iter
+        if not (isinstance(it, ast.Call) and isinstance(it.func, ast.Name) and it.func.id == "enumerate"
+                and len(it.args) == 1 and not it.keywords and isinstance(s.target, ast.Tuple) and len(s.target.elts) == 2
+                and isinstance(s.target.elts[0], ast.Name)):
+            return s
+        ivar = s.target.elts[0].id
+        inner, tgt = it.args[0], s.target.elts[1]
+        arrays, names = [], []
+        if isinstance(inner, ast.Name) and isinstance(tgt, ast.Name):
+            arrays, names = [inner.id], [tgt.id]
+        elif isinstance(inner, ast.Call) and isinstance(inner.func, ast.Name) and inner.func.id == "zip" \
+                and all(isinstance(a, ast.Name) for a in inner.args) and isinstance(tgt, ast.Tuple) \
+                and len(tgt.elts) == len(inner.args) and all(isinstance(t, ast.Name) for t in tgt.elts):
+            arrays, names = [a.id for a in inner.args], [t.id for t in tgt.elts]
+        else:
+            raise TranslateError(f"{self.fname}: unsupported enumerate pattern {ast.unparse(s.iter)}")
+        for a in arrays:
+            if a not in cx.env or not cx.env[a].ty.startswith("A("):
+                raise TranslateError(f"{self.fname}: enumerate over a non-array {a}")
+        n_expr = f"len({arrays[0]})"
+        for a in arrays[1:]:
+            n_expr = f"_min({n_expr}, len({a}))"
+        pre = "\n".join(f"{nm} = {a}[{ivar}]" for a, nm in zip(arrays, names))
+        new = ast.parse(f"for {ivar} in range({n_expr}):\n    pass").body[0]
+        new.body = ast.parse(pre).body + s.body
+        new.orelse = []
+        return new
+
     def _args_in_param_order(self, cx, captured, fields):
         args, seen_aux = [], set()
 
@@ -830,6 +915,7 @@ class LoopTranslator:
             cx.env[p] = Var(lp, t, lens, (True, 64) if t == "A(Int)" else None, opt)
         cx.env["err!"] = Var("false", "Bool")
         self.uses_div = False
+        self.extra_params = {}
         self.ret_ty = None
         self.pending_ret = None
         body = [s for s in fn.body]
@@ -848,7 +934,11 @@ class LoopTranslator:
         txt += (f"def {lean_name} (k : Kind) " + " ".join(sig) + f" : ({ret_ty}) × Bool :=\n"
                 + "".join(f"  {l}\n" for l in cx.lets) + f"  {esc}\n")
         if self.uses_div:
-            txt = txt.replace(" (k : Kind) ", " (k : Kind) (divf : Val → Int → Val) ").replace("_step k ", "_step k divf ")
+            self.extra_params = {"divf": "Val → Int → Val", **self.extra_params}
+        if self.extra_params:
+            decl = " ".join(f"({n} : {t})" for n, t in self.extra_params.items())
+            names = " ".join(self.extra_params)
+            txt = txt.replace(" (k : Kind) ", f" (k : Kind) {decl} ").replace("_step k ", f"_step k {names} ")
         return txt
 
 
@@ -889,22 +979,44 @@ LOOPS = {
     "rolling_sum_or_mean": ("numba", "_rolling_sum_or_mean_1d",
                             {"group_key": "A(Int)", "values": "LL(Val)", "ngroups": "Int", "window": "Int",
                              "min_periods": "OptInt", "mask": "OptA(Bool)", "null_value": "Val", "want_mean": "Bool"}),
+    "ema_grouped": ("emas", "_ema_grouped",
+                    {"group_key": "A(Int)", "values": "A(F)", "alpha": "F", "ngroups": "Int", "mask": "OptA(Bool)"}, "F"),
+    "ema_grouped_timed": ("emas", "_ema_grouped_timed",
+                          {"group_key": "A(Int)", "values": "A(F)", "times": "A(Int)", "halflife": "Int", "ngroups": "Int",
+                           "mask": "OptA(Bool)"}, "F"),
     "build_group_sorted_indexer": ("core", "_build_group_sorted_indexer_numba",
                                    {"group_key_list": "LL(Int)", "group_counts": "A(Int)", "key_map": "OptA(Int)",
                                     "mask": "OptA(Bool)"}),
 }
 
 
+def module_int_constants(tree: ast.AST) -> dict:
+    """module-level `NAME = <int>` and `NAME = np.iinfo(np.int64).min / .max`"""
+    out = {}
+    for n in getattr(tree, "body", []):
+        if isinstance(n, ast.Assign) and len(n.targets) == 1 and isinstance(n.targets[0], ast.Name):
+            v = n.value
+            if isinstance(v, ast.Constant) and isinstance(v.value, int) and not isinstance(v.value, bool):
+                out[n.targets[0].id] = v.value
+            elif ast.unparse(v) == "np.iinfo(np.int64).min":
+                out[n.targets[0].id] = -(2 ** 63)
+            elif ast.unparse(v) == "np.iinfo(np.int64).max":
+                out[n.targets[0].id] = 2 ** 63 - 1
+    return out
+
+
 def generate_loops(trees: dict[str, ast.AST], only=None) -> tuple[str, dict[str, str]]:
     """returns (Lean text, {function: error message}) - a function that cannot be translated is left out"""
     out = [PRELUDE]
     errors = {}
-    for lean_name, (mod, pyname, params) in LOOPS.items():
+    for lean_name, spec in LOOPS.items():
+        mod, pyname, params = spec[:3]
+        float_ty = spec[3] if len(spec) > 3 else "Val"
         if only and lean_name not in only:
             continue
         try:
             fn = find_func(trees[mod], pyname)
-            tr = LoopTranslator(lean_name, params)
+            tr = LoopTranslator(lean_name, params, float_ty, module_int_constants(trees[mod]))
             out.append(f"/-! ### `{pyname}` -/\n\n" + tr.function(fn, lean_name) + "\n")
         except TranslateError as e:
             errors[lean_name] = str(e)
